@@ -16,14 +16,42 @@ from .values import SArr, SFloat, SInt, const_arr, dim_term, mk_bool, mk_int
 _BV = {}
 
 
+_DEPTH = {}
+
+
 def bound_vars(family, n):
+    """bound index variables of an operator application at the current nesting depth of its family (an operator
+    whose argument contains another application of the same family must not capture its variables)"""
+    d = _DEPTH.get(family, 0)
     out = []
     for j in range(n):
-        key = (family, j)
+        key = (family, d, j)
         if key not in _BV:
-            _BV[key] = z3.Int(f"{family}!{j}")
+            _BV[key] = z3.Int(f"BV!{family}!{d}!{j}")
         out.append(_BV[key])
     return out
+
+
+class nested:
+    """context entered while the ARGUMENT of an operator of `family` is evaluated"""
+
+    def __init__(self, family):
+        self.family = family
+
+    def __enter__(self):
+        _DEPTH[self.family] = _DEPTH.get(self.family, 0) + 1
+
+    def __exit__(self, *a):
+        _DEPTH[self.family] -= 1
+
+
+_CANON_BV = {}
+
+
+def canon_bv(j):
+    if j not in _CANON_BV:
+        _CANON_BV[j] = z3.Int(f"BV!#!{j}")
+    return _CANON_BV[j]
 
 
 class _Interner:
@@ -41,9 +69,16 @@ class _Interner:
         arguments of the operator symbol, so that substituting a batch index in a result term (vmap / scan-map) is
         sound and so that the same element function at different batch indices shares one symbol."""
         tab = self.tables.setdefault(opkey, [])
-        bids = {v.get_id() for v in bvars}
-        canon, args, phs = _canonical(core_term, bids)
+        # the operator's own bound variables are renamed to depth-independent canonical ones
+        cbv = [canon_bv(j) for j in range(len(bvars))]
+        sub_bv = [(v, c) for v, c in zip(bvars, cbv)]
+        core_c = z3.substitute(core_term, *sub_bv) if bvars else core_term
+        rng = [z3.substitute(r, *sub_bv) for r in rng] if bvars else list(rng)
+        core_term = core_c
+        bids = {v.get_id() for v in cbv}
+        canon, args, phs = _canonical(core_c, bids)
         cid = canon.get_id()
+        bvars = cbv
         for ck, it, ia, uf in tab:
             if ck == cid:
                 return lambda out, uf=uf, args=args: uf(*(list(args) + [smt.z(o) for o in out]))
@@ -191,12 +226,12 @@ def linear_apply(opname, opparams, A, t_axes, family, out_extra):
     index-dependent core.  opparams (tuple of R-values, e.g. the sizes of the transformed axes) are appended
     to the operator key so that the same core transformed with different sizes is a different symbol."""
     nt = len(t_axes)
-    bv = bound_vars(family, nt)
-    bv_ids = frozenset(v.get_id() for v in bv)
     sizes = tuple(dim_term(A.shape[ax]) for ax in t_axes)
 
     def g(batch_idx, out_idx):
         e = engine.cur()
+        bv = bound_vars(family, nt)   # at the nesting depth of this evaluation
+        bv_ids = frozenset(v.get_id() for v in bv)
         full, bi = [], iter(batch_idx)
         for ax in range(A.ndim):
             if ax in t_axes:
@@ -206,7 +241,8 @@ def linear_apply(opname, opparams, A, t_axes, family, out_extra):
         rng = [z3.And(v >= 0, v < smt.z(sz)) for v, sz in zip(bv, sizes)]
         e.hyps.extend(rng)  # obligations raised while evaluating the argument hold for every transformed index
         try:
-            t = smt.R(values.coerce(A.at_(tuple(full)), "real"))
+            with nested(family):
+                t = smt.R(values.coerce(A.at_(tuple(full)), "real"))
         finally:
             del e.hyps[len(e.hyps) - len(rng):]
         if smt.is_conc(t):
@@ -330,7 +366,17 @@ def _reduce_symbolic(op, A, axes, keepdims, where_):
             im = _reduce_symbolic(op, A.imag, axes, keepdims, None)
             return SArr(out_shape, lambda i: CX(re.at_(i), im.at_(i)), "complex")
         Ar = A if A.kind == "real" else A.astype(values.DType("real"))
-        g = linear_apply("SUM", (), Ar, tuple(axes), "S", None)
+        # reduced axes of concrete length 1 are fixed at index 0 (summing over them is the identity): canonical operator
+        ones = [ax for ax in axes if values.is_one(A.shape[ax])]
+        if ones and len(ones) < len(axes):
+            keep_axes = [ax for ax in range(A.ndim) if ax not in ones]
+            sq = SArr(tuple(A.shape[ax] for ax in keep_axes),
+                      (lambda idx, Ar=Ar: Ar.at_(tuple(0 if ax in ones else idx[keep_axes.index(ax)] for ax in range(Ar.ndim)))), "real")
+            red = tuple(keep_axes.index(ax) for ax in axes if ax not in ones)
+            g0 = linear_apply("SUM", (), sq, red, "S", None)
+            g = g0
+        else:
+            g = linear_apply("SUM", (), Ar, tuple(axes), "S", None)
         if op == "sum":
             return SArr(out_shape, lambda i: g(batch_of(i), ()), "real")
         cnt = 1
@@ -350,14 +396,14 @@ values.REDUCE_SYMBOLIC = _reduce_symbolic
 def aggregate_apply(opname, A, t_axes):
     """opaque (non-linear) aggregate over axes: interned on the whole element function"""
     nt = len(t_axes)
-    bv = bound_vars("S", nt)
 
     def g(batch_idx):
         e = engine.cur()
+        bv = bound_vars("S", nt)
         full, bi = [], iter(batch_idx)
         for ax in range(A.ndim):
             full.append(bv[t_axes.index(ax)] if ax in t_axes else next(bi))
-        with engine.no_div_guard():
+        with engine.no_div_guard(), nested("S"):
             t = smt.zr(smt.R(values.coerce(A.at_(tuple(full)), "real")))
         t = z3.simplify(t)
         sizes = tuple(dim_term(A.shape[ax]) for ax in t_axes)
@@ -376,15 +422,16 @@ def opaque_apply(opname, A, extra_key=()):
     """uninterpreted (non-linear) operator on a whole array: N(A)[idx] = UF_{id(A)}(idx); congruence by semantic
     interning of A's element function (all axes bound)."""
     A = const_arr(A)
-    bv = bound_vars("O", A.ndim)
     sizes = tuple(dim_term(d) for d in A.shape)
 
     def g(out_idx):
         e = engine.cur()
+        bv = bound_vars("O", A.ndim)
         rng = [z3.And(v >= 0, v < smt.z(sz)) for v, sz in zip(bv, sizes)]
         e.hyps.extend(rng)
         try:
-            el = A.at_(tuple(bv))
+            with nested("O"):
+                el = A.at_(tuple(bv))
         finally:
             del e.hyps[len(e.hyps) - len(rng):]
         if isinstance(el, CX):
